@@ -121,6 +121,22 @@ Theorem C20_json_int64_refuted :
 Proof. exact reencode_int_lossy. Qed.
 Print Assumptions C20_json_int64_refuted.
 
+(* The scenario replay used by the correspondence run (n guns with template caches over the shared
+   heap, any shot order, the [next] bookkeeping of the `prepare` preprocessor) IS its specification
+   (every shot rendered from the configured definitions), and the heap it returns is the configured
+   one — for definitions with distinct call names and map-like metadata blocks. *)
+Theorem C20_scenario_replay :
+  forall users defs scens timeout n order,
+    defs_wf defs -> Forall (fun i => i < n) order ->
+    scen_model users defs scens (heap_of defs) (sguns_of n timeout) 0 0 order =
+      (heap_of defs, scen_spec users defs scens timeout (heap_of defs) 0 0 order).
+Proof.
+  intros users defs scens timeout n order Hwf Ho.
+  apply scen_model_is_spec; [exact Hwf|apply sguns_ok|].
+  unfold sguns_of. rewrite repeat_length. exact Ho.
+Qed.
+Print Assumptions C20_scenario_replay.
+
 (* ---------- non-vacuity ---------- *)
 
 Definition ex_tok : gbytes := [123;123;46;117;46;116;111;107;101;110;125;125]%N.   (* {{.u.token}} *)
